@@ -225,23 +225,7 @@ func checkC18(p *Prog, r *Report) {
 	if !okSep || len(sep) != 1 {
 		r.Fail(kp("CONST", "GenesisKeySeparator"), "the genesis key separator is a one-character constant", aolTypesPkg, "value "+sepC)
 	} else {
-		b := sep[0]
-		// topic-name language
-		tn := p.Func(Rel(aolTypesPkg), "validateTopicName")
-		okT := false
-		if tn != nil {
-			if spec, _, okS := summariseLengthRegexValidator(p, tn, 0); okS && spec.Pat != "" {
-				if admits, err := LangAdmitsByte(spec, b); err == nil && !admits {
-					okT = true
-				}
-			}
-		}
-		r.Check(okT, kp("CONST", "separator∉topic-name-language"), "the separator cannot occur in an admitted topic name (so strings.Split cannot mis-split)", aolTypesPkg,
-			fmt.Sprintf("%q is outside the topic-name regex", sep), fmt.Sprintf("the topic-name validator admits %q: a topic named \"a%sb\" exports to a key that splits into too many parts and the genesis cannot be imported", sep, sep))
-		hrp, _ := p.ConstVal(Rel("app"), "AccountAddressPrefix")
-		bech := "qpzry9x8gf2tvdw0s3jn54khce6mua7l1" + strings.Trim(hrp, `"`)
-		r.Check(!strings.ContainsRune(bech, rune(b)) && !(b >= '0' && b <= '9'), kp("CONST", "separator∉bech32∪digits"), "the separator is outside the bech32 alphabet, the address prefix and the decimal digits", aolTypesPkg,
-			fmt.Sprintf("%q ∉ {%s} ∪ digits", sep, bech), fmt.Sprintf("%q can occur inside an address or an offset string", sep))
+		checkSeparatorOutsideComponents(p, r, kp, sep)
 		// both sides use the same constant
 		n := 0
 		for _, fn := range p.ModFuncs {
@@ -1335,4 +1319,26 @@ func checkAppendEncoderShape(p *Prog, r *Report, kp func(string, string) string,
 		}
 	}
 	r.Check(okErr, kp("GUARD", fname+"#oversize-is-an-error"), "a component longer than 255 bytes is rejected with an error", site, "the bound test has an error-returning branch", "no error-returning branch on the length test")
+}
+
+// checkSeparatorOutsideComponents (shared by C08 and C18): the one-character genesis key separator cannot occur inside a key
+// component — not in an admitted topic name, not in a bech32 address, not in a decimal offset.
+func checkSeparatorOutsideComponents(p *Prog, r *Report, kp func(string, string) string, sep string) {
+	b := sep[0]
+	// topic-name language
+	tn := p.Func(Rel(aolTypesPkg), "validateTopicName")
+	okT := false
+	if tn != nil {
+		if spec, _, okS := summariseLengthRegexValidator(p, tn, 0); okS && spec.Pat != "" {
+			if admits, err := LangAdmitsByte(spec, b); err == nil && !admits {
+				okT = true
+			}
+		}
+	}
+	r.Check(okT, kp("CONST", "separator∉topic-name-language"), "the separator cannot occur in an admitted topic name (so strings.Split cannot mis-split)", aolTypesPkg,
+		fmt.Sprintf("%q is outside the topic-name regex", sep), fmt.Sprintf("the topic-name validator admits %q: a topic named \"a%sb\" exports to a key that splits into too many parts and the genesis cannot be imported", sep, sep))
+	hrp, _ := p.ConstVal(Rel("app"), "AccountAddressPrefix")
+	bech := "qpzry9x8gf2tvdw0s3jn54khce6mua7l1" + strings.Trim(hrp, `"`)
+	r.Check(!strings.ContainsRune(bech, rune(b)) && !(b >= '0' && b <= '9'), kp("CONST", "separator∉bech32∪digits"), "the separator is outside the bech32 alphabet, the address prefix and the decimal digits", aolTypesPkg,
+		fmt.Sprintf("%q ∉ {%s} ∪ digits", sep, bech), fmt.Sprintf("%q can occur inside an address or an offset string", sep))
 }
